@@ -39,11 +39,8 @@ var solvers = []solverSpec{
 	{"z3", func(t time.Duration, f string) []string {
 		return []string{"z3", fmt.Sprintf("-T:%d", int(t.Seconds())+1), "-smt2", f}
 	}},
-	// z3 5.1 with the integer-based bit-vector solver: decides the linear
-	// length arithmetic that bit-blasting is slow on
-	{"z3-new-bv2", func(t time.Duration, f string) []string {
-		return []string{"z3-new", fmt.Sprintf("-T:%d", int(t.Seconds())+1), "smt.bv.solver=2", "-smt2", f}
-	}},
+	// (z3 5.1's smt.bv.solver=2 was tried for linear length arithmetic and
+	// removed: it answered unsat on a satisfiable query - DESIGN.md, false alarms)
 }
 
 var cacheDir = "/verif/.cache"
